@@ -200,8 +200,10 @@ def run(res, tier, seed, replay_script=None):
         last_evalx = None
         for si, st in enumerate(steps):
             t = st.cmd.split()
-            if st.exc is not None and st.exc[0] == "hang" and not gl.still_hangs(drv, scripts[cid], st.cmd, wd):
-                stats["slow_calls_skipped"] = stats.get("slow_calls_skipped", 0) + 1     # completed under the long limit (or not re-run): slow, not a hang
+            if st.exc is not None and st.exc[0] == "hang":
+                # the statement says nothing about running time or termination (that is C08's clause): a call that does not return within the
+                # case limit (huge proposals from noisy data, greedy node optimisation of hundreds of sequence nodes) ends the case, counted
+                stats["slow_calls_skipped"] = stats.get("slow_calls_skipped", 0) + 1
                 break
             if st.exc is not None and st.exc[0] in ("hang",) or (st.exc is not None and st.exc[0].startswith("crash")):
                 res.violation("no-return:" + t[0] if st.exc[0] == "hang" else "crash:" + t[0], "%s -> %s [%s]" % (st.cmd, st.exc, scripts[cid][1]),
@@ -389,7 +391,7 @@ def run(res, tier, seed, replay_script=None):
     if not ok_ext and not res.violations:
         res.violation("extraction", "extraction of the model failed", {"kind": "proof-break", "log": elog[-2000:]}, no_input=True)
 
-    res.coverage["slow_calls_completed_under_the_long_limit_skipped"] = stats.get("slow_calls_skipped", 0)
+    res.coverage["calls_not_returning_within_the_case_limit_not_judged"] = stats.get("slow_calls_skipped", 0)
     res.coverage["states_skipped_ill_conditioned_polynomial_interpolation"] = stats.get("skipped_ill_conditioned", 0)
     res.coverage["largest_one_ulp_weight_change_of_a_skipped_state"] = stats.get("max_lebesgue_sum_skipped", 0.0)
     res.coverage.update({
